@@ -438,6 +438,25 @@ fn cf_case(case: &Value) -> Value {
   }
 }
 
+// case: {src, media}: deno_ast::parse_program alone (no deno_lint code involved)
+fn parse_case(case: &Value) -> Value {
+  let src = case["src"].as_str().unwrap_or("").trim_start_matches('\u{FEFF}').to_string();
+  let mt = media(case["media"].as_str().unwrap_or("ts"));
+  let spec = ModuleSpecifier::parse(&format!("file:///v/case.{}", ext_of(mt)))
+    .unwrap();
+  match deno_ast::parse_program(deno_ast::ParseParams {
+    specifier: spec,
+    media_type: mt,
+    text: src.into(),
+    capture_tokens: true,
+    maybe_syntax: Some(deno_ast::get_syntax(mt)),
+    scope_analysis: true,
+  }) {
+    Ok(ps) => json!({"ok": [], "parse_diags": ps.diagnostics().len()}),
+    Err(e) => json!({ "parse_error": format!("{}", e.message()) }),
+  }
+}
+
 // case: {seq: [[pattern, u], ...]}  |  {flags: "..."}
 fn regex_case(case: &Value) -> Value {
   if let Some(f) = case["flags"].as_str() {
@@ -466,6 +485,10 @@ fn regex_case(case: &Value) -> Value {
   json!({ "verdicts": res })
 }
 
+thread_local! {
+  static LAST_PANIC_LOC: std::cell::RefCell<String> = std::cell::RefCell::new(String::new());
+}
+
 fn main() {
   std::env::set_var("RUST_BACKTRACE", "0");
   let args: Vec<String> = std::env::args().collect();
@@ -474,8 +497,14 @@ fn main() {
     println!("{}", registry());
     return;
   }
-  // silence the default panic message (the orchestrator gets it as JSON)
-  std::panic::set_hook(Box::new(|_| {}));
+  // silence the default panic message (the orchestrator gets it as JSON) but remember where it was
+  std::panic::set_hook(Box::new(|info| {
+    let loc = info
+      .location()
+      .map(|l| format!("{}:{}", l.file(), l.line()))
+      .unwrap_or_default();
+    LAST_PANIC_LOC.with(|c| *c.borrow_mut() = loc);
+  }));
   let f: fn(&Value) -> Value = match sub {
     "lint" => lint_case,
     "multi" => multi_case,
@@ -483,6 +512,7 @@ fn main() {
     "runorder" => runorder_case,
     "dirparse" => dirparse_case,
     "cf" => cf_case,
+    "parse" => parse_case,
     "regex" => regex_case,
     _ => {
       eprintln!("unknown subcommand {sub}");
@@ -522,7 +552,13 @@ fn main() {
                 } else {
                   "panic".to_string()
                 };
-                json!({ "panic": msg })
+                let loc = LAST_PANIC_LOC.with(|c| c.borrow().clone());
+                // keep only the path below the cargo registry root (crate-version/src/file.rs:line)
+                let loc = match loc.find("/registry/src/") {
+                  Some(i) => loc[i + 14..].splitn(2, '/').nth(1).unwrap_or("").to_string(),
+                  None => loc,
+                };
+                json!({ "panic": msg, "at": loc })
               }
             }
           }
